@@ -37,6 +37,12 @@ func c17Events(thorough bool) []string {
 		}
 		out = append(out, "rm:"+s)
 	}
+	// one record carrying several addresses (zeroconf delivers a record with all A / AAAA answers): a known
+	// address followed by a new one, two IPv4 addresses, IPv4 + link-local + global IPv6
+	out = append(out, "add:S1:a1+g6", "add:S1:a1+a2")
+	if thorough {
+		out = append(out, "add:S1:a2+ll+g6", "add:S2:a1+g6")
+	}
 	for _, d := range c17Defects {
 		out = append(out, "bad:S1:"+d)
 	}
@@ -52,11 +58,13 @@ func c17Entry(ev string) (*fakezeroconf.ServiceEntry, bool) {
 	remove := false
 	switch p[0] {
 	case "add":
-		ip := net.ParseIP(c17Addrs[p[2]])
-		if ip.To4() != nil {
-			e.AddrIPv4 = []net.IP{ip}
-		} else {
-			e.AddrIPv6 = []net.IP{ip}
+		for _, an := range strings.Split(p[2], "+") {
+			ip := net.ParseIP(c17Addrs[an])
+			if ip.To4() != nil {
+				e.AddrIPv4 = append(e.AddrIPv4, ip)
+			} else {
+				e.AddrIPv6 = append(e.AddrIPv6, ip)
+			}
 		}
 	case "rm":
 		remove = true
@@ -99,21 +107,23 @@ func (m refModel) apply(ev string) {
 		if ski == localSKI {
 			return
 		}
-		ip := net.ParseIP(c17Addrs[p[2]])
-		usable := !(ip.To4() == nil && ip.IsLinkLocalUnicast())
 		cur, ok := m[ski]
 		if !ok {
 			cur = []string{}
 		}
-		if usable {
-			dup := false
-			for _, a := range cur {
-				if a == ip.String() {
-					dup = true
+		for _, an := range strings.Split(p[2], "+") {
+			ip := net.ParseIP(c17Addrs[an])
+			usable := !(ip.To4() == nil && ip.IsLinkLocalUnicast())
+			if usable {
+				dup := false
+				for _, a := range cur {
+					if a == ip.String() {
+						dup = true
+					}
 				}
-			}
-			if !dup {
-				cur = append(cur, ip.String())
+				if !dup {
+					cur = append(cur, ip.String())
+				}
 			}
 		}
 		m[ski] = cur
